@@ -68,3 +68,31 @@ CLAIMS['C06'] = dict(
          'the expired edge removes the record; session_memory_storage is accessed under its mutex and keeps record deadline and expiry-index key identical (erase old index entry before insert); '
          'session_dual dispatches on the cookie type and clears the server record before switching to client storage; load_data/packed reads are proved inside the string (linear bounds with bit-field ranges).',
     note='Not decided: value-exact carry-over across histories, renew-window arithmetic, exposed-cookie reconciliation, exactness of valid_sid (E3 rule pending). Trusted: std containers, the non-mutating accessor table.')
+
+CLAIMS['C18'] = dict(
+    category='other',
+    technique='static analysis: gate-edge domination on the CFG, provenance of call arguments, writer/reader table agreement, lockset with locked_file as guard',
+    text='The enumeration of torn states is a runtime quantity; what makes every torn state harmless is structural and is decided: read_from_file reports success (and writes its out-parameters) only past '
+         'each of the three header short-read tests, the deadline<time() test, the data short-read test and the false edge of crc != CRC32 where the CRC object processed exactly the `size` bytes read into the returned buffer; '
+         'writer header layout (field sizes and roles, via the type of the object written first) equals the reader sequence, CRC/size describe the bytes written, header precedes data, short writes are reported; '
+         'every file access lies inside the lifetime of a locked_file whose constructor locks before open and whose destructor always unlocks; unlink happens only on the failed-read edge of load / expired timestamp in gc for 32-hex names.',
+    note='Assumption: CRC-32 collisions between a torn and a complete record are outside the claim. Not decided: filesystem ordering of the two write() calls after a power loss, fcntl locking across processes.')
+
+CLAIMS['C13'] = dict(
+    category='other',
+    technique='static analysis: reaching-definition provenance with gate edges, flag-carried facts, CFG domination, escape-wrapper routing',
+    text='Decides on every path of file_server::main that each path reaching a file operation (file_mode, ifstream, async_file_handler, list_dir) is the out-parameter of check_in_document_root on its true edge '
+         '(copies and re-assigned boolean flags followed); check_in_document_root normalises before any other use, success under check_symlinks_ needs is_in_root, is_in_root needs canonical() and '
+         'is_file_prefix(root, canonical), alias matching is component-wise, is_file_prefix compares length, all bytes and the directory boundary; every decrement of the normaliser cursor is directly governed by out > begin+1; '
+         'only S_IFREG files are streamed and the tested mode belongs to the opened path; listing only when enabled, dot names skipped, every name / URL written through util::escape or util::urlencode.',
+    note='Not decided: the lexical normaliser result for every segment sequence when symlink checking is off (only its floor is decided); realpath/canonicalize_file_name are trusted.')
+
+CLAIMS['C20'] = dict(
+    category='other',
+    technique='static analysis: who-may-call, constant-evaluated call arguments, CFG domination, loop-shape and table rules over resolved overloads',
+    text='Decides: the dispatcher, mount point and application pool call only regex_match; both booster::regex::match overloads run the separately compiled end-anchored program (d->are) over the whole [begin,end) from offset 0 '
+         'with an options word containing PCRE_ANCHORED (evaluated from the parsed <pcre.h>), return true only if pcre_exec succeeded and, for captures, only if the match spans the input; assign() builds that program exactly as '
+         '"(?:" + pattern + ")\\z" with the same flags (so a top-level alternation cannot escape the anchor); url_dispatcher scans options from 0 upward over the whole table and returns at the first hit, the table is append-only, '
+         'the pool returns at the first matching mount; option::matches returns the whole-path match and is reachable past the method filter only when it passed; every success of mount_point::match passed, for host, script name and path info each, '
+         'the empty() or the regex_match edge, and the returned sub-path comes from the selected side; handler overload k is given match_[select_[0..k-1]] in order.',
+    note='Trusted: PCRE semantics of PCRE_ANCHORED and \\z. Not decided: mapper/dispatcher agreement (URL generation inverse).')
